@@ -56,7 +56,10 @@ def fresh_obj(x):
 
 # ------------------------------------------------------------------ registry
 class Spec:
-    def __init__(self, fn, name, rec=False, args=None, ret=None, fuel=1, special=None, post=None, decreases=None, axiomatic=False):
+    def __init__(self, fn, name, rec=False, args=None, ret=None, fuel=1, special=None, post=None, decreases=None, axiomatic=False, opaque=False):
+        self.opaque = opaque
+        if opaque:
+            rec, fuel = True, 0
         self.fn, self.name, self.rec, self.args, self.ret, self.fuel = fn, name, rec, args, ret, fuel
         self.special, self.post, self.decreases = special, post, decreases
         self.axiomatic = axiomatic
@@ -147,9 +150,9 @@ class Registry:
 REG = Registry()
 
 
-def spec(fn=None, *, rec=False, args=None, ret=None, fuel=1, special=None, post=None, decreases=None, name=None, axiomatic=False):
+def spec(fn=None, *, rec=False, args=None, ret=None, fuel=1, special=None, post=None, decreases=None, name=None, axiomatic=False, opaque=False):
     def deco(f):
-        s = Spec(f, name or f.__name__, rec, args, ret, fuel, special, post, decreases, axiomatic)
+        s = Spec(f, name or f.__name__, rec, args, ret, fuel, special, post, decreases, axiomatic, opaque)
         REG.specs[f] = s
         REG.spec_names[s.name] = s
         f._spec = s
